@@ -4,12 +4,14 @@ import KrroodVerif.Model.Predicate
 Driver for C12. One case:
 
 `(call <fn|method|pred> (params (a) (b 8) …) (pos <arg>…) (kw (name <arg>)…) (doms (0 1 2 3) (1 4) …) (pre 0 …)
-  (neg T|F) (body <salt> <modulus>) (knobs (is_expensive T) …) (hist ((oid state)…) …) …)` with `<arg>` =
+  (neg T|F) (body <salt> <modulus>) (knobs (is_expensive T) …) (frame T|F T|F) (hist ((oid state)…) …) …)` with `<arg>` =
 `(l <value>)`, `(l <value> <variant>)` (an `==`-equal but different constant, see `showVal`; the body adds the variant
 to the value), `(v <variable id>)` or `(a <accessor> <variable id>)` (`x.att`, `x.get()`, `x.items[0]`, …: the value
 passed is `state + 100·accessor`). Candidate objects are identified by a number (printed in `rows`); their state —
 what accessors and the body read, printed in `log` — starts equal to it and is overwritten by each world of `hist`
 before the same query object is evaluated again; the evaluations are printed joined by ` ;; `.
+`(frame A B)`: the query is the if/else `or_(and_(c, gA), and_(not_(c), gB))` with the SAME condition object `c = [not_] call`
+in both branches (`Pred.Frame`, `Pred.runFramedHistory`); absent: `and_(pre…, [not_] call)`.
 
 `params` are the parameters the user can bind (default value after the name, then `kw` for a keyword-only
 parameter: `(b kw)`, `(c 7 kw)`). A call Python itself rejects has `spec=invalid`: the property then demands the
@@ -131,15 +133,26 @@ def run (s : Sexp) : String :=
       -- the query object is built once and evaluated in the initial world, then in every world of `hist`
       let worlds : List World := id :: hist
       let sh := showHistory body
+      -- `(frame T|F T|F)`: the condition object is written twice, `or_(and_(c, A), and_(not_(c), B))`
+      let frame : Option Frame ← match Sexp.field? items "frame" with
+        | some [t, e] => do pure (some ⟨← t.asBool?, ← e.asBool?⟩)
+        | some _ => none
+        | none => pure none
+      let runH := fun (q : Quirks) => match frame with
+        | some f => runFramedHistory q knobs f x [] worlds
+        | none => runHistory q knobs x [] worlds
+      let specH := match frame with
+        | some f => specFramedHistory f x worlds
+        | none => specHistory x worlds
       let trig := (if codeQuirks.symFnIgnoresFirst && trigPositional call then ["F-C12-1"] else [])
         ++ (if codeQuirks.childVarsIndependent && trigShared x then ["F-C12-2"] else [])
         ++ (if codeQuirks.acceptsRejected && trigRejected call then ["F-C12-3"] else [])
-      pure (s!"model={sh (runHistory codeQuirks knobs x [] worlds)}"
-        ++ s!"\tmodel_fixed={sh (runHistory { codeQuirks with symFnIgnoresFirst := false } knobs x [] worlds)}"
-        ++ s!"\tmodel_f2={sh (runHistory { codeQuirks with childVarsIndependent := false } knobs x [] worlds)}"
-        ++ s!"\tmodel_f3={sh (runHistory { codeQuirks with acceptsRejected := false } knobs x [] worlds)}"
-        ++ s!"\tmodel_f12={sh (runHistory Quirks.none knobs x [] worlds)}"
-        ++ s!"\tspec={sh (specHistory x worlds)}\ttrig={",".intercalate trig}")
+      pure (s!"model={sh (runH codeQuirks)}"
+        ++ s!"\tmodel_fixed={sh (runH { codeQuirks with symFnIgnoresFirst := false })}"
+        ++ s!"\tmodel_f2={sh (runH { codeQuirks with childVarsIndependent := false })}"
+        ++ s!"\tmodel_f3={sh (runH { codeQuirks with acceptsRejected := false })}"
+        ++ s!"\tmodel_f12={sh (runH Quirks.none)}"
+        ++ s!"\tspec={sh specH}\ttrig={",".intercalate trig}")
     r.getD "error=bad-case"
   | _ => "error=bad-case"
 
